@@ -295,6 +295,7 @@ func (vm *VirtualMachine) eval(ctx context.Context) error {
 		// this is done before we actually execute the current instruction, so
 		// relative jump instructions will need to take this into account.
 		vm.ip++
+		vm.verifTrace(opcode)
 
 		// Dispatch the instruction
 		switch opcode {
